@@ -94,6 +94,58 @@ def _ir_cmd(entry, outdir, idx):
     return cmd, ll
 
 
+import re as _re
+_MAC = _re.compile(r"^#define (\w+) (.+)$")
+_SAFE = _re.compile(r"^[\s0-9a-fA-FxXuUlL()+\-*/<>|&~]+$")
+
+
+def _parse_macros(text):
+    raw = {}
+    for line in text.splitlines():
+        m = _MAC.match(line)
+        if not m or m.group(1).startswith("__"):
+            continue
+        raw[m.group(1)] = m.group(2).strip()
+    out = {}
+    ident = _re.compile(r"\b[A-Za-z_]\w*\b")
+
+    def resolve(name, depth=0):
+        if name in out:
+            return out[name]
+        v = raw.get(name)
+        if v is None or depth > 8:
+            return None
+        if v.startswith('"') and v.endswith('"') and len(v) >= 2 and '"' not in v[1:-1]:
+            out[name] = v[1:-1]
+            return out[name]
+        e = _re.sub(r"(?<=[0-9a-fA-F])[uUlL]+\b", "", v)
+        bad = []
+
+        def sub(mm):
+            w = mm.group(0)
+            if _re.match(r"^0[xX][0-9a-fA-F]+$", w):
+                return w
+            r = resolve(w, depth + 1)
+            if isinstance(r, int):
+                return "(%d)" % r
+            bad.append(w)
+            return w
+        e2 = ident.sub(sub, e)
+        if bad or not _SAFE.match(e2):
+            return None
+        try:
+            val = eval(e2, {"__builtins__": {}}, {})
+        except Exception:
+            return None
+        if isinstance(val, int):
+            out[name] = val
+            return val
+        return None
+    for n in list(raw):
+        resolve(n)
+    return out
+
+
 def build_facts(config="default", repo=None, keep=False, verbose=False):
     """Returns path of the facts JSON for (current tree, config)."""
     repo = repo or REPO
@@ -134,6 +186,18 @@ def build_facts(config="default", repo=None, keep=False, verbose=False):
         for (rc, log), (cmd, ll) in zip(res, jobs):
             if rc != 0:
                 raise AnalysisBroken("IR compile failed: %s\n%s" % (" ".join(cmd), log[-3000:]))
+        # object-like integer macros per unit (clang -dM -E): the rules take protocol constants
+        # (error codes, cJSON type tags, close codes) from the tree, never from a frozen copy
+        def macros(j):
+            cmd = [a for a in j[0] if a not in ("-S", "-emit-llvm")]
+            k = cmd.index("-o")
+            cmd = cmd[:k] + cmd[k + 2:]
+            src = cmd.pop()
+            rc, out = _run(cmd + ["-dM", "-E", src], cwd=b)
+            return _parse_macros(out) if rc == 0 else {}
+        with ThreadPoolExecutor(max_workers=16) as ex:
+            mres = list(ex.map(macros, jobs))
+        macro_tab = {os.path.basename(e["file"]): m for e, m in zip(units, mres)}
         linked = os.path.join(scratch, "all.bc")
         rc, log = _run(["llvm-link-14", "-o", linked] + [j[1] for j in jobs])
         if rc != 0:
@@ -147,6 +211,9 @@ def build_facts(config="default", repo=None, keep=False, verbose=False):
         if rc != 0:
             raise AnalysisBroken("ir2facts failed:\n" + log[-3000:])
         # attach meta
+        with open(tmp + ".macros", "w") as fh:
+            json.dump(macro_tab, fh)
+        os.replace(tmp + ".macros", out + ".macros")
         meta = {"config": config, "cmake_defs": CONFIGS[config], "units": [e["file"] for e in units],
                 "tree_hash": th, "build_s": round(time.time() - t0, 2)}
         with open(tmp + ".meta", "w") as fh:
@@ -181,6 +248,8 @@ def load_facts(config="default", repo=None):
         facts = json.load(fh)
     with open(p + ".meta") as fh:
         facts["meta"] = json.load(fh)
+    with open(p + ".macros") as fh:
+        facts["macros"] = json.load(fh)
     return facts
 
 
